@@ -435,7 +435,9 @@ func c09Run(t *testing.T, sc Scenario, res *Result) {
 // C11
 
 var c11Behaviours = []string{"pass", "skip", "errorf", "errorf+skip", "cleanup-errorf", "go-errorf", "cleanup-state", "fatalf", "panic", "skip+cleanup-errorf", "errorf+invalid-draw",
-	"cleanup-skip", "cleanup-more-errorf", "cleanup-more"}
+	"cleanup-skip", "cleanup-more-errorf", "cleanup-more",
+	// failures without a message followed by a skip / raised by a cleanup; a non-fatal failure in a case that is skipped twice over
+	"error-empty+skip", "cleanup-errorf-empty", "errorf+skip+cleanup-skip", "cleanup-errorf+cleanup-skip", "cleanup-skip+cleanup-errorf"}
 
 func c11Scenarios(cfg runCfg) []Scenario {
 	var out []Scenario
@@ -571,6 +573,39 @@ func c11Body(forced map[uint64]string, randomRate int, salt uint64, leaks *int, 
 				})
 				*followUpsRegistered++
 			})
+		case "error-empty+skip":
+			x.fail(fkErrorEmpty, 0)
+			x.skip("after a failure without a message")
+		case "cleanup-errorf-empty":
+			x.t.Cleanup(func() {
+				if !me.current() {
+					*leaks++
+				}
+				me.where = "body/cleanup"
+				raiseOn(me, me.t, fkErrorfEmpty, 2)
+			})
+		case "errorf+skip+cleanup-skip", "cleanup-errorf+cleanup-skip", "cleanup-skip+cleanup-errorf":
+			skipper := func() {
+				x.t.Cleanup(func() {
+					if !me.current() {
+						*leaks++
+					}
+					me.ev("cleanup skips")
+					me.t.Skip("skip from a cleanup")
+				})
+			}
+			switch b {
+			case "errorf+skip+cleanup-skip":
+				skipper()
+				x.fail(fkErrorf, 0)
+				x.skip("after errorf, and a cleanup will skip as well")
+			case "cleanup-errorf+cleanup-skip":
+				skipper() // runs after the failing one
+				cleanupErr()
+			default:
+				cleanupErr()
+				skipper() // runs before the failing one
+			}
 		case "fatalf":
 			x.fail(fkFatalf, 3)
 		case "panic":
